@@ -25,6 +25,7 @@ type simcfg struct {
 	cache    int
 	faults   bool
 	dagrun   bool
+	ff       bool
 	live     int
 	witness  bool
 	thorough bool
@@ -50,9 +51,13 @@ type hist struct {
 	nextNodeID       int
 	weights          []float64
 	witnessBatch     int
+	ffAnchorRR       []int
 }
 
 func (h *hist) pull(a, b *hx.Node, limit int, lose bool) {
+	if a.PendingFF || b.PendingFF {
+		return
+	}
 	known := a.Core.KnownEvents()
 	diff, err := b.Core.EventDiff(known)
 	if err != nil {
@@ -94,7 +99,23 @@ func (h *hist) after(a *hx.Node, sigPoolRan bool) {
 	h.conservation(a)
 	if h.cfg.dyn {
 		h.peerSetOracle(a)
+		h.resetPeerSetOracle(a)
 		h.membership(a)
+	}
+	if a.WasReset {
+		// events inserted by a reset node are tracked explicitly
+		for id, last := range a.Store.KnownEvents() {
+			if p, ok := a.Store.RepertoireByID()[id]; ok {
+				if hs, err := a.Store.ParticipantEvents(p.PubKeyString(), last-20); err == nil {
+					for _, x := range hs {
+						if ev, err := a.Store.GetEvent(x); err == nil {
+							a.NoteInserted(ev)
+						}
+					}
+				}
+			}
+		}
+		h.roundDivergence(a)
 	}
 }
 
@@ -114,6 +135,9 @@ func (h *hist) membership(a *hx.Node) {
 				h.nextNodeID++
 				nd.Core.SetAcceptedRound(r)
 				nd.Core.SetHeadAndSeq()
+				if h.cfg.ff && h.rng.Intn(2) == 0 {
+					nd.PendingFF = true
+				}
 				h.nodes = append(h.nodes, nd)
 				h.weights = append(h.weights, 1)
 				h.actions["node-joined"]++
@@ -162,8 +186,8 @@ func (h *hist) oracles(a *hx.Node, before int) {
 	// C02: consecutive indexes, increasing round-received
 	for k := before; k < len(a.Final); k++ {
 		b := a.Final[k]
-		if b.Index() != k {
-			w.Violation("C02", "non-consecutive-index", fmt.Sprintf("node=%d delivery=%d index=%d", a.ID, k, b.Index()))
+		if b.Index() != a.Base+k {
+			w.Violation("C02", "non-consecutive-index", fmt.Sprintf("node=%d delivery=%d index=%d base=%d", a.ID, k, b.Index(), a.Base))
 		}
 		if k > 0 && b.RoundReceived() <= a.Final[k-1].RoundReceived() {
 			w.Violation("C02", "round-received-not-increasing", fmt.Sprintf("node=%d index=%d", a.ID, k))
@@ -172,9 +196,9 @@ func (h *hist) oracles(a *hx.Node, before int) {
 	}
 	// C02: every delivered block re-read from the store keeps its body; signatures only grow
 	for k := 0; k < len(a.Final); k++ {
-		b, err := a.Store.GetBlock(k)
+		b, err := a.Store.GetBlock(a.Base + k)
 		if err != nil {
-			w.Violation("C02", "delivered-block-unreadable", fmt.Sprintf("node=%d index=%d", a.ID, k))
+			w.Violation("C02", "delivered-block-unreadable", fmt.Sprintf("node=%d index=%d", a.ID, a.Base+k))
 			continue
 		}
 		if s := a.BlockBodyStr(b, false); s != a.FinalBody[k] {
@@ -192,24 +216,34 @@ func (h *hist) oracles(a *hx.Node, before int) {
 		}
 		h.sigsPrev[key] = cur
 	}
-	// C01: prefix consistency with every other node
+	// C01 (and C13 for reset nodes): agreement with every other node on every block index both delivered
 	for k := before; k < len(a.Final); k++ {
+		idx := a.Base + k
 		for _, o := range h.nodes {
-			if o == a || k >= len(o.Final) {
+			ob, obody, ok := o.BlockAt(idx)
+			if o == a || !ok {
 				continue
 			}
-			if o.FinalBody[k] != a.FinalBody[k] {
-				w.Violation("C01", "blocks-differ", fmt.Sprintf("index=%d node%d=[%s] node%d=[%s]", k, a.ID, a.FinalBody[k], o.ID, o.FinalBody[k]))
+			prop := "C01"
+			if a.WasReset || o.WasReset {
+				prop = "C13"
+			}
+			sfx := ""
+			if a.RoundDiverged || o.RoundDiverged {
+				sfx = "-after-round-divergence"
+			}
+			if obody != a.FinalBody[k] {
+				w.Violation(prop, "blocks-differ"+sfx, fmt.Sprintf("index=%d node%d=[%s] node%d=[%s]", idx, a.ID, a.FinalBody[k], o.ID, obody))
 			}
 			fa, _ := a.Store.GetFrame(a.Final[k].RoundReceived())
-			fo, _ := o.Store.GetFrame(o.Final[k].RoundReceived())
+			fo, _ := o.Store.GetFrame(ob.RoundReceived())
 			if fa != nil && fo != nil {
 				ha, _ := fa.Hash()
 				ho, _ := fo.Hash()
 				if fmt.Sprintf("%X", ha) != fmt.Sprintf("%X", ho) ||
-					fmt.Sprintf("%X", a.Final[k].FrameHash()) != fmt.Sprintf("%X", o.Final[k].FrameHash()) ||
-					fmt.Sprintf("%X", a.Final[k].PeersHash()) != fmt.Sprintf("%X", o.Final[k].PeersHash()) {
-					w.Violation("C01", "frame-or-peers-hash-differ", fmt.Sprintf("index=%d node%d node%d", k, a.ID, o.ID))
+					fmt.Sprintf("%X", a.Final[k].FrameHash()) != fmt.Sprintf("%X", ob.FrameHash()) ||
+					fmt.Sprintf("%X", a.Final[k].PeersHash()) != fmt.Sprintf("%X", ob.PeersHash()) {
+					w.Violation(prop, "frame-or-peers-hash-differ"+sfx, fmt.Sprintf("index=%d node%d node%d", idx, a.ID, o.ID))
 				}
 			}
 		}
@@ -317,6 +351,10 @@ func runHistory(out *bufio.Writer, seed int64, hid int, cfg simcfg) (stats map[s
 			h.actions["silenced"] += k
 		}
 		a := h.nodes[pick()]
+		if a.PendingFF {
+			h.fastForward(a)
+			continue
+		}
 		if cfg.dyn && rng.Intn(40) == 0 {
 			live := 0
 			for _, nd := range h.nodes {
@@ -428,6 +466,7 @@ func main() {
 	faults := flag.Bool("faults", false, "inject store failures on new-event writes")
 	dagrun := flag.Bool("dagrun", false, "C03: re-feed the global DAG under orders / cuts / stores / batchings")
 	thorough := flag.Bool("thorough", false, "more variants")
+	ff := flag.Bool("ff", false, "C13: half of the joiners start by fast-forwarding from a peer's anchor instead of replaying history")
 	live := flag.Int("live", 0, "C06: after the adversarial prefix run fair all-pairs cycles until quiescence, at most this many")
 	witness := flag.Bool("c03witness", false, "search a minimal batching witness")
 	flag.Parse()
@@ -439,7 +478,7 @@ func main() {
 		if i%7 != 0 && n < 3 && *maxn >= 3 {
 			n = 3 + master.Intn(*maxn-2)
 		}
-		cfg := simcfg{n: n, steps: *steps/2 + master.Intn(*steps), dyn: *dyn, fairTail: *tail, cache: *cache, faults: *faults, dagrun: *dagrun, thorough: *thorough, live: *live, witness: *witness}
+		cfg := simcfg{n: n, steps: *steps/2 + master.Intn(*steps), dyn: *dyn, fairTail: *tail, cache: *cache, faults: *faults, dagrun: *dagrun, thorough: *thorough, ff: *ff, live: *live, witness: *witness}
 		runHistory(out, master.Int63(), i, cfg)
 	}
 }
